@@ -702,7 +702,13 @@ class Engine:
             return [(st, 'normal')]
         if isinstance(s, (ast.Import, ast.ImportFrom, ast.Pass)): return [(st, 'normal')]
         if isinstance(s, ast.Assign):
-            v = self.empty_literal(s.value, s.targets[0], st) or self.ev(s.value, st)
+            val_node = s.value
+            if isinstance(val_node, ast.BoolOp) and isinstance(val_node.op, ast.Or) and len(val_node.values) == 2 and self.is_empty_literal(val_node.values[1]):
+                # x = given or set() / [] / {}: the given collection when there is one (an empty one equals the literal), the empty literal for None
+                first = self.ev(val_node.values[0], st)
+                if first.t is TNone: val_node = val_node.values[1]
+                elif isinstance(first.t, (TSet, TBag, TSeq)) or is_map(first.t): val_node = val_node.values[0]
+            v = self.empty_literal(val_node, s.targets[0], st) or self.ev(val_node, st)
             t0 = s.targets[0]
             if v.t is TNone and isinstance(t0, ast.Name) and t0.id in self.cur.locals:
                 dt = self.cur.locals[t0.id]
